@@ -320,20 +320,87 @@ fn progress_file() -> Option<&'static str> {
   P.get_or_init(|| std::env::var("DGV_PROGRESS_FILE").ok()).as_deref()
 }
 
+/// (property id, tier, seed) of the running check, for the watchdog
+static WATCH_CTX: std::sync::Mutex<Option<(String, String, u64)>> = std::sync::Mutex::new(None);
+/// properties whose statement includes termination: a stuck case is a
+/// violation there, inconclusive elsewhere
+static STUCK_IS_VIOLATION: std::sync::atomic::AtomicBool = std::sync::atomic::AtomicBool::new(false);
+
+pub fn stuck_case_is_violation() {
+  STUCK_IS_VIOLATION.store(true, std::sync::atomic::Ordering::Relaxed);
+}
+
+fn case_deadline_secs() -> u64 {
+  std::env::var("DGV_CASE_DEADLINE").ok().and_then(|s| s.parse().ok()).unwrap_or(300)
+}
+
+/// Called by the watchdog when one generated case has been running for longer
+/// than the deadline (cases normally take micro- to milliseconds; the
+/// deadline is ~10^5 times that). The stuck thread cannot be stopped, so the
+/// process reports and exits.
+fn report_stuck_case(i: usize, secs: u64) -> ! {
+  let (id, tier, seed) = WATCH_CTX.lock().ok().and_then(|g| g.clone()).unwrap_or(("?".into(), "quick".into(), 1));
+  if STUCK_IS_VIOLATION.load(std::sync::atomic::Ordering::Relaxed) {
+    let rdir = format!("{}/replays", VERIF_DIR);
+    std::fs::create_dir_all(&rdir).ok();
+    let rpath = format!("{}/{}-stuck-case{}-seed{}.json", rdir, id, i, seed);
+    let body = json!({
+      "property": id, "signature": "non-termination/case-did-not-finish", "seed": seed, "tier": tier,
+      "what": format!("generated case {} was still running after {} s (cases of this check take milliseconds)", i, secs),
+      "witness": {"case_index": i, "deadline_s": secs},
+    });
+    std::fs::write(&rpath, serde_json::to_string_pretty(&body).unwrap()).ok();
+    println!("  signature: non-termination/case-did-not-finish");
+    println!("  what: generated case {} was still running after {} s", i, secs);
+    println!("VIOLATION property={} replay={}", id, rpath);
+    std::process::exit(1);
+  }
+  println!("INCONCLUSIVE property={} watchdog: generated case {} was still running after {} s", id, i, secs);
+  std::process::exit(2);
+}
+
 pub fn par_run<F>(n: usize, f: F) -> Acc
 where
   F: Fn(usize, &mut Acc) + Sync,
 {
+  use std::sync::atomic::AtomicU64;
   use std::sync::atomic::AtomicUsize;
   use std::sync::atomic::Ordering;
   let next = AtomicUsize::new(0);
   let threads = n_threads().min(n.max(1));
   let mut total = Acc::new();
+  // per worker: (case index + 1, start time in ms since `t0`); 0 = idle
+  let t0 = Instant::now();
+  let slots: Vec<(AtomicUsize, AtomicU64)> = (0..threads).map(|_| (AtomicUsize::new(0), AtomicU64::new(0))).collect();
+  let done = std::sync::atomic::AtomicBool::new(false);
   std::thread::scope(|s| {
+    // watchdog
+    {
+      let slots = &slots;
+      let done = &done;
+      s.spawn(move || {
+        let deadline = case_deadline_secs();
+        while !done.load(Ordering::Relaxed) {
+          std::thread::sleep(std::time::Duration::from_millis(500));
+          let now = t0.elapsed().as_millis() as u64;
+          for (case, started) in slots.iter() {
+            let c = case.load(Ordering::Relaxed);
+            let st = started.load(Ordering::Relaxed);
+            if c != 0 && now.saturating_sub(st) > deadline * 1000 {
+              // re-check that it is still the same case
+              if case.load(Ordering::Relaxed) == c && started.load(Ordering::Relaxed) == st {
+                report_stuck_case(c - 1, deadline);
+              }
+            }
+          }
+        }
+      });
+    }
     let mut handles = Vec::new();
-    for _ in 0..threads {
+    for w in 0..threads {
       let next = &next;
       let f = &f;
+      let slot = &slots[w];
       handles.push(
         std::thread::Builder::new()
           .stack_size(256 << 20)
@@ -352,7 +419,10 @@ where
                   let _ = writeln!(fh, "{}", i);
                 }
               }
+              slot.1.store(t0.elapsed().as_millis() as u64, Ordering::Relaxed);
+              slot.0.store(i + 1, Ordering::Relaxed);
               let r = catch(|| f(i, &mut acc));
+              slot.0.store(0, Ordering::Relaxed);
               if let Err(p) = r {
                 acc.inconclusive.push(format!(
                   "harness item {} panicked at {}:{}: {}",
@@ -371,6 +441,7 @@ where
         Err(_) => total.inconclusive.push("worker thread died".into()),
       }
     }
+    done.store(true, Ordering::Relaxed);
   });
   total
 }
@@ -426,6 +497,13 @@ pub struct Report {
 
 impl Report {
   pub fn new(id: &str, tier: Tier, seed: u64) -> Self {
+    if let Ok(mut g) = WATCH_CTX.lock() {
+      *g = Some((id.to_string(), tier.name().to_string(), seed));
+    }
+    if matches!(id, "C03" | "C14" | "C16") {
+      // "terminates" is part of these statements
+      stuck_case_is_violation();
+    }
     Report {
       id: id.to_string(),
       tier,
